@@ -183,10 +183,30 @@ Definition action_ok (a : action) : bool :=
   | _ => true
   end.
 
+(* helpers the regenerated pieces of action_summary.py are written with (harness/sl2v.py) *)
+Definition py_drop1 (s : str) : str := match s with [] => [] | _ :: r => r end.              (* s[1:] *)
+Fixpoint py_startswith (s p : str) : bool :=                                                   (* s.startswith(p) *)
+  match p, s with
+  | [], _ => true
+  | x :: p', y :: s' => Z.eqb x y && py_startswith s' p'
+  | _ :: _, [] => false
+  end.
+Definition py_ne_false (o : option bool) : bool := match o with Some false => false | _ => true end.  (* o != False *)
+Definition py_items {K A} (eqb : K -> K -> bool) (d : list (K * A)) : list (K * A) :=          (* d.items() *)
+  flat_map (fun k => match aget eqb k d with Some v => [(k, v)] | None => [] end) (map fst d).
+Definition py_oget {A} (k : option str) (d : list (str * A)) : option A :=                     (* a key that may be None *)
+  match k with Some k' => aget str_eqb k' d | None => None end.
+Definition py_odel {A} (k : option str) (d : list (str * A)) : list (str * A) :=
+  match k with Some k' => adel str_eqb k' d | None => d end.
+
 Section WithDefaults.
   (* usertypes.get_type_default, as a function of the full column type (tied on every run: the table
      usertypes._type_defaults is regenerated into coq/gen) *)
   Variable type_default : str -> V.
+  (* false: action_summary.py / docactions.py as they are.  true: the repaired variant of
+     notes/proposed_fixes/C02-stale-delta-after-readd.diff (BulkAddRecord restarts the calc deltas left over for
+     rows that are added again; a removed-and-re-added row is never dropped as unchanged). *)
+  Variable repaired : bool.
 
   Definition new_table (cols : list (str * option str)) : table :=
     mkTable [] (map (fun p => (fst p, mkCol (match snd p with Some ty => ty | None => [] end) [])) cols).
@@ -352,6 +372,12 @@ Section WithDefaults.
     | None => aset str_eqb after None m
     end.
 
+  (* LabelRenames.is_created / original_name (used by the undo half only) *)
+  Definition lr_is_created (m : renames) (n : str) : bool :=
+    match aget str_eqb n m with Some None => true | _ => false end.
+  Definition lr_original_name (m : renames) (n : str) : str :=
+    match aget str_eqb n m with Some None => root_name n | Some (Some o) => o | None => n end.
+
   Definition change := (Z * (V * V))%type.                (* (row_id, (before, after)) *)
   Definition rowdeltas := list (Z * (V * V)).
 
@@ -451,23 +477,50 @@ Section WithDefaults.
   Definition after_of (dl : rowdeltas) (r : Z) : V :=
     match aget Z.eqb r dl with Some p => snd p | None => 0 end.
 
+  (* filter_out_new_rows / filter_out_gone_rows *)
+  Definition filter_out_new_rows (tables : list (str * tdelta)) (t : str) (rows : list Z) : list Z :=
+    match aget str_eqb t tables with
+    | Some td => filter (fun r => match aget Z.eqb r (td_pb td) with Some false => false | _ => true end) rows
+    | None => rows
+    end.
+  Definition filter_out_gone_rows (tables : list (str * tdelta)) (t : str) (rows : list Z) : list Z :=
+    match aget str_eqb t tables with
+    | Some td => filter (fun r => match aget Z.eqb r (td_pa td) with Some false => false | _ => true end) rows
+    | None => rows
+    end.
+
+  (* sorted(r for r, (before, after) in column_delta.items() if not equal_encoding(before, after)) *)
+  Definition full_rows (dl : rowdeltas) : list Z :=
+    sort_by Z.ltb (filter (fun r => match aget Z.eqb r dl with
+                                    | Some p => negb (Z.eqb (fst p) (snd p))
+                                    | None => false
+                                    end) (map fst dl)).
+
+  (* repaired variant: a row that was present before the bundle, removed and added again (both flags True) is
+     kept even if its delta is (v, v) *)
+  Definition readded_b (tables : list (str * tdelta)) (t : str) (r : Z) : bool :=
+    match aget str_eqb t tables with
+    | Some td => match aget Z.eqb r (td_pb td), aget Z.eqb r (td_pa td) with
+                 | Some true, Some true => true
+                 | _, _ => false
+                 end
+    | None => false
+    end.
+  Definition full_rows_rep (tables : list (str * tdelta)) (t : str) (dl : rowdeltas) : list Z :=
+    sort_by Z.ltb (filter (fun r => match aget Z.eqb r dl with
+                                    | Some p => negb (Z.eqb (fst p) (snd p)) || readded_b tables t r
+                                    | None => false
+                                    end) (map fst dl)).
+
   (* the stored half of ActionSummary._changes_to_actions *)
   Definition changes_to_stored (S : summary) (t c : str) (dl : rowdeltas) : option action :=
     match dl with
     | [] => None
     | _ =>
-      (* sorted(r for r, (before, after) in column_delta.items() if not equal_encoding(before, after)) *)
-      let full := sort_by Z.ltb (filter (fun r => match aget Z.eqb r dl with
-                                                  | Some p => negb (Z.eqb (fst p) (snd p))
-                                                  | None => false
-                                                  end) (map fst dl)) in
+      let full := if repaired then full_rows_rep (sm_tables S) t dl else full_rows dl in
       if is_defunct t || is_defunct c then None
       else
-        let rows_after :=
-          match aget str_eqb (root_name t) (sm_tables S) with
-          | Some td => filter (fun r => match aget Z.eqb r (td_pa td) with Some false => false | _ => true end) full
-          | None => full
-          end in
+        let rows_after := filter_out_gone_rows (sm_tables S) (root_name t) full in
         simplify_update (root_name t) rows_after (root_name c) (map (after_of dl) rows_after)
     end.
 
@@ -535,7 +588,8 @@ Section WithDefaults.
   | EFlushCol (t c : str)                             (* ActionGroup.flush_calc_changes_for_column *)
   | EFlushAll                                         (* ActionGroup.flush_calc_changes *)
   | EPrune (t c : str)                                (* actions.prune_actions(out_actions.calc, t, c) *)
-  | ERollback (n : Z).                                (* Engine._undo_to_checkpoint: del stored[n:], direct[n:] *)
+  | ERollback (n : Z)                                 (* Engine._undo_to_checkpoint: del stored[n:], direct[n:] *)
+  | ECheckpoint.                                      (* Engine._get_undo_checkpoint of a later rollback (no effect) *)
 
   Record st := mkSt {
     s_doc : doc;                  (* the engine's document *)
@@ -568,13 +622,46 @@ Section WithDefaults.
   Definition set_changes (t c : str) (chs : list change) (d : doc) : doc :=
     upd_table t (upd_col c (set_cells (map (fun ch => (fst ch, snd (snd ch))) chs))) d.
 
+  Definition cell_values (d : doc) (t c : str) (r : Z) : list V :=
+    flat_map (fun p => if str_eqb (fst p) t
+                       then flat_map (fun q => if str_eqb (fst q) c
+                                               then map snd (filter (fun x => Z.eqb (fst x) r) (c_cells (snd q)))
+                                               else []) (t_cols (snd p))
+                       else []) d.
+
+  (* repaired variant, ActionSummary.restart_rows as called by docactions.BulkAddRecord: a delta left over for a
+     row that is added again gets the value the cell now starts with as its `after` (and, for a row that did not
+     exist before the bundle, as its `before` too) *)
+  Definition restart_dl (pb : list (Z * bool)) (start : Z -> V) (rs : list Z) (dl : rowdeltas) : rowdeltas :=
+    map (fun q => if zmem (fst q) rs
+                  then (fst q, (match aget Z.eqb (fst q) pb with Some false => start (fst q) | _ => fst (snd q) end,
+                                start (fst q)))
+                  else q) dl.
+  Definition restart_rows (t : str) (rs : list Z) (d' : doc) (S : summary) : summary :=
+    match aget str_eqb t (sm_tables S) with
+    | None => S
+    | Some td =>
+        set_table t (mkTD (td_pb td) (td_pa td) (td_cren td)
+                          (map (fun p => if is_defunct (fst p) then p
+                                         else (fst p, restart_dl (td_pb td)
+                                                                 (fun r => hd 0 (cell_values d' t (fst p) r)) rs (snd p)))
+                               (td_deltas td))) S
+    end.
+  Definition restart_for (a : action) (d' : doc) (S : summary) : summary :=
+    match bulk_of a with
+    | BulkAddRecord t rs _ => restart_rows t rs d' S
+    | _ => S
+    end.
+
   Definition step (e : event) (s : st) : res st :=
     match e with
     | EDoc a lvl pre =>
         let s1 := push a (lvl =? 0) s in
         match eng_apply a (s_doc s) with
         | Err c => Err c
-        | Ok d' => Ok (mkSt d' (sum_apply a pre (s_doc s) (s_sum s)) (s_stored s1) (s_direct s1) (s_calc s1))
+        | Ok d' =>
+            let S1 := sum_apply a pre (s_doc s) (s_sum s) in
+            Ok (mkSt d' (if repaired then restart_for a d' S1 else S1) (s_stored s1) (s_direct s1) (s_calc s1))
         end
     | EDocFail a lvl => Ok (push a (lvl =? 0) s)
     | ECreate a => Ok (push a true s)
@@ -591,6 +678,7 @@ Section WithDefaults.
     | ERollback n =>
         Ok (mkSt (s_doc s) (s_sum s) (firstn (Z.to_nat n) (s_stored s)) (firstn (Z.to_nat n) (s_direct s))
                  (s_calc s))
+    | ECheckpoint => Ok s
     end.
 
   Fixpoint run (s : st) (es : list event) : res st :=
@@ -649,13 +737,21 @@ Section WithDefaults.
 
   Definition table_clear (S : summary) (t : str) : bool := negb (amem str_eqb t (sm_tables S)).
 
+  (* equality of the (bulk) removal an undo must be *)
+  Definition action_eqb_bulk (a b : action) : bool :=
+    match a, b with
+    | BulkRemoveRecord t rs, BulkRemoveRecord t' rs' =>
+        str_eqb t t' && Nat.eqb (length rs) (length rs') && forallb (fun p => Z.eqb (fst p) (snd p)) (combine rs rs')
+    | _, _ => false
+    end.
+
   Definition rows_fresh (rs : list Z) : bool := forallb (fun r => 0 <? r) rs && nodupb zmem rs.
 
   (* (SC1) a doc action never writes or creates a cell that has a pending delta; row ids added are positive
      and distinct (docactions.BulkAddRecord checks neither); names created are not '-...' *)
   Definition sc1 (S : summary) (a : action) : bool :=
     match bulk_of a with
-    | BulkAddRecord t rs _ => rows_fresh rs && forallb (row_clear S t) rs
+    | BulkAddRecord t rs _ => rows_fresh rs && (repaired || forallb (row_clear S t) rs)
     | ReplaceTableData t rs _ => rows_fresh rs && forallb (row_clear S t) rs
     | BulkUpdateRecord t rs cols =>
         forallb (fun p => forallb (fun r => match sdelta S t (fst p) r with None => true | Some _ => false end) rs)
@@ -667,13 +763,6 @@ Section WithDefaults.
     | RenameTable _ t' => negb (is_defunct t') && table_clear S t'
     | _ => true
     end.
-
-  Definition cell_values (d : doc) (t c : str) (r : Z) : list V :=
-    flat_map (fun p => if str_eqb (fst p) t
-                       then flat_map (fun q => if str_eqb (fst q) c
-                                               then map snd (filter (fun x => Z.eqb (fst x) r) (c_cells (snd q)))
-                                               else []) (t_cols (snd p))
-                       else []) d.
 
   (* (SC2) the rows exist, and a change to a cell without a pending delta starts from the cell's value *)
   Fixpoint sc2 (d : doc) (S : summary) (t c : str) (chs : list change) : bool :=
@@ -688,21 +777,85 @@ Section WithDefaults.
         && sc2 (set_changes t c [ch] d) (add_changes t c [ch] S) t c chs'
     end.
 
+  (* repaired variant only: where a delta is restarted, the cells the start value is read from agree (they are one
+     cell whenever column ids and row ids are distinct) *)
+  Definition all_equal (l : list V) : bool := match l with [] => true | x :: l' => forallb (Z.eqb x) l' end.
+  Definition uniform_starts (S : summary) (t : str) (rs : list Z) (d' : doc) : bool :=
+    match aget str_eqb t (sm_tables S) with
+    | None => true
+    | Some td => forallb (fun p => forallb (fun r => negb (amem Z.eqb r (snd p))
+                                                     || all_equal (cell_values d' t (fst p) r)) rs) (td_deltas td)
+    end.
+  Definition sc1r (s : st) (a : action) : bool :=
+    match bulk_of a, eng_apply a (s_doc s) with
+    | BulkAddRecord t rs _, Ok d' => uniform_starts (s_sum s) t rs d'
+    | _, _ => true
+    end.
+
   Definition wf_event_b (s : st) (e : event) : bool :=
     match e with
-    | EDoc a _ _ => sc1 (s_sum s) a
+    | EDoc a _ _ => sc1 (s_sum s) a && (negb repaired || sc1r s a)
     | ECalc t c chs => sc2 (s_doc s) (s_sum s) t c chs
     | EFlushCol _ _ | EFlushAll | EPrune _ _ => true
-    | EDocFail _ _ | ECreate _ | ERollback _ => false
+    | EDocFail _ _ | ECreate _ | ERollback _ | ECheckpoint => false
     end.
 
-  Fixpoint wf_run_b (s : st) (es : list event) : bool :=
+  (* A rollback inside a bundle (a formula whose side effects are undone, Engine._recompute_one_cell): between the
+     checkpoint and the rollback the engine applies doc actions and then their undo actions in reverse order
+     (ApplyUndoActions), and finally trims stored/direct back to the checkpoint.  Covered here: segments whose doc
+     actions are record additions (what lookupOrAddDerived does); their undo actions are the matching removals.
+     The checker follows the segment with a small automaton. *)
+  Inductive wmode :=
+  | WNormal
+  | WSeg (n : nat) (pending : list action) (popping : bool).   (* undo actions still to come, newest first *)
+
+  Definition seg_add_ok (S : summary) (a : action) : option action :=
+    match bulk_of a with
+    | BulkAddRecord t rs cols =>
+        if rows_fresh rs && forallb (row_clear S t) rs then Some (BulkRemoveRecord t rs) else None
+    | _ => None
+    end.
+
+  Definition wf_next (m : wmode) (s : st) (e : event) : option wmode :=
+    match m with
+    | WNormal =>
+        match e with
+        | ECheckpoint => Some (WSeg (length (s_stored s)) [] false)
+        | _ => if wf_event_b s e then Some WNormal else None
+        end
+    | WSeg n pend popping =>
+        match e with
+        | EDoc a _ pre =>
+            match pend with
+            | u :: pend' =>
+                if action_eqb_bulk (bulk_of a) u then Some (WSeg n pend' true)
+                else if popping then None
+                     else match pre, seg_add_ok (s_sum s) a with
+                          | [], Some u' => Some (WSeg n (u' :: pend) false)
+                          | _, _ => None
+                          end
+            | [] => if popping then None
+                    else match pre, seg_add_ok (s_sum s) a with
+                         | [], Some u' => Some (WSeg n [u'] false)
+                         | _, _ => None
+                         end
+            end
+        | ERollback k => match pend with [] => if Nat.eqb (Z.to_nat k) n then Some WNormal else None | _ => None end
+        | _ => None
+        end
+    end.
+
+  Fixpoint wf_run_b (m : wmode) (s : st) (es : list event) : bool :=
     match es with
-    | [] => true
-    | e :: es' => wf_event_b s e && match step e s with Ok s' => wf_run_b s' es' | Err _ => true end
+    | [] => match m with WNormal => true | _ => false end
+    | e :: es' =>
+        match wf_next m s e with
+        | None => false
+        | Some m' => match step e s with Ok s' => wf_run_b m' s' es' | Err _ => true end
+        end
     end.
 
-  Definition wf_events_b (d : doc) (es : list event) : bool := wf_run_b (init_st d) (es ++ [EFlushAll]).
+  Definition wf_events_b (d : doc) (es : list event) : bool := wf_run_b WNormal (init_st d) (es ++ [EFlushAll]).
 
   Fixpoint wf_history_b (d : doc) (bs : list (list event)) : bool :=
     match bs with
